@@ -2,7 +2,8 @@
    returned.  [judge] compares the observation with the model (agree) and evaluates the property
    predicate C18_ok on the observation with oracles that do not go through the model's
    algorithms (arithmetic on denoted integers, pointwise sampling of step functions). *)
-From SC Require Import Base.Prelude Timeline.Timestamp Timeline.Segment Timeline.Mode Timeline.Own Timeline.Wrap.
+From SC Require Import Base.Prelude Cmp.Cmp Cmp.Tolerance Cmp.GoTime.
+From SC Require Import Timeline.Timestamp Timeline.Segment Timeline.Mode Timeline.Own Timeline.Wrap Timeline.GoTimeMode.
 
 (* a mode result seen from outside: which argument it IS (if any), start time, Segments *)
 Definition mres : Type := option nat * option ts * (sprov * list (prov * seg)).
@@ -36,7 +37,14 @@ Inductive c18case :=
 | KOwnSum (args : list (nat * nat * list seg)) (mut : bool) (obs : sprov * list (prov * seg))
 | KOwnModeCut (arg : nat * nat * option ts * list seg) (t : Z) (mut : bool) (obs : option mres * option mres * bool)
 | KOwnModeShift (arg : nat * nat * option ts * list seg) (d : Z) (mut : bool) (obs : option mres)
-| KOwnModeSum (args : list (nat * nat * option ts * list seg)) (mut : bool) (obs : option mres).
+| KOwnModeSum (args : list (nat * nat * option ts * list seg)) (mut : bool) (obs : option mres)
+(* fourth wave: Go's time.Time under AsTime / Compare / Sub / Before / After / Add / timestamppb.New, and the mode
+   operations for start times over the whole 64-bit range of seconds (GoTimeMode.v) *)
+| KGoCompare (a b : ts) (obs : Z * Z * bool * bool)
+| KGoNew (a : ts) (d : Z) (obs : ts)
+| KGoMode (t : Z) (m : mode) (obs : (Z * Z) * (Z * bool) * Z * (option mode * option mode * bool))
+| KGoModeShift (d : Z) (m : mode) (obs : mode)
+| KGoModeSum (ms : list mode) (obs : option mode).
 
 Definition zz_eqb (a b : Z * Z) := (fst a =? fst b) && (snd a =? snd b).
 Definition zb_eqb (a b : Z * bool) := (fst a =? fst b) && Bool.eqb (snd a) (snd b).
@@ -161,7 +169,7 @@ Definition active_ok (d : Z) (l : list seg) (obs : Z * Z) : bool :=
 Definition mode_wf (m : mode) : bool :=
   segs_wf (msegs m) && match mstart m with Some s => ts_valid s | None => true end.
 
-Definition C18_ok (c : c18case) : bool :=
+Definition C18_ok0 (c : c18case) : bool :=
   match c with
   | KCompare a b obs => obs =? compare_ref a b
   | KIntersect p q obs => Bool.eqb obs (intersect_ref p q)
@@ -255,6 +263,7 @@ Definition C18_ok (c : c18case) : bool :=
   | KMinAt t ms obs => min_at_ok t ms obs
   | KOwnShift _ _ _ _ mut _ | KOwnSum _ mut _ | KOwnModeCut _ _ mut _ | KOwnModeShift _ _ mut _
   | KOwnModeSum _ mut _ => negb mut
+  | KGoCompare _ _ _ | KGoNew _ _ _ | KGoMode _ _ _ | KGoModeShift _ _ _ | KGoModeSum _ _ => true
   end.
 
 (* magnitude of the infinite last segment of a list, 0 if the list is finite: what Sum's open tail adds up from *)
@@ -264,7 +273,7 @@ Fixpoint tail_level (l : list seg) : Z :=
   | s :: r => match len s with None => mag s | Some _ => tail_level r end
   end.
 (* the guard under which the theorems of Props/C18.v are stated *)
-Definition C18_guard (c : c18case) : bool :=
+Definition C18_guard0 (c : c18case) : bool :=
   match c with
   | KCompare a b _ => ts_valid a && ts_valid b
   | KIntersect p q _ | KConnected p q _ => periods_ok p q
@@ -282,9 +291,10 @@ Definition C18_guard (c : c18case) : bool :=
   | KMaxMagnitude l _ | KSumMagnitude l _ => segs_wf l
   | KMinAt t ms _ => forallb (fun m => mode_wf m && mode_dur_guard t m) ms
   | KOwnShift _ _ _ _ _ _ | KOwnSum _ _ _ | KOwnModeCut _ _ _ _ | KOwnModeShift _ _ _ _ | KOwnModeSum _ _ _ => true
+  | KGoCompare _ _ _ | KGoNew _ _ _ | KGoMode _ _ _ | KGoModeShift _ _ _ | KGoModeSum _ _ => false
   end.
 
-Definition agrees (c : c18case) : bool :=
+Definition agrees0 (c : c18case) : bool :=
   match c with
   | KCompare a b obs => obs =? compare_ascending a b
   | KIntersect p q obs => Bool.eqb obs (periods_intersect p q)
@@ -330,6 +340,51 @@ Definition agrees (c : c18case) : bool :=
       let '(h0, ms) := margs_heap args in
       let '(r, h) := mode_sum_own no_growth ms h0 in
       Bool.eqb mut (negb (heap_kept h0 h)) && option_eqb mres_eqb obs (option_map (view_mode h0 h) r)
+  | KGoCompare _ _ _ | KGoNew _ _ _ | KGoMode _ _ _ | KGoModeShift _ _ _ | KGoModeSum _ _ => false
+  end.
+
+(* ---- fourth wave: the kinds observed through Go's time.Time ---- *)
+(* compared with the functions of GoTimeMode.v for EVERY int64 of seconds and int32 of nanos *)
+Definition agrees (c : c18case) : bool :=
+  match c with
+  | KGoCompare a b obs =>
+      let '(c, s, bf, af) := obs in
+      let A := ts_as_time a in let B := ts_as_time b in
+      (c =? go_compare A B) && (s =? go_sub A B) && Bool.eqb bf (go_before A B) && Bool.eqb af (go_after A B)
+  | KGoNew a d obs => ts_eqb obs (ts_new (go_add (ts_as_time a) d))
+  | KGoMode t m obs =>
+      let '(ac, mg, mx, ct) := obs in
+      zz_eqb ac (mode_active_at_g t m) && zb_eqb mg (mode_magnitude_at_g t m)
+      && (mx =? mode_max_segment_after_g t m) && cut3_eqb mode_eqb ct (mode_cut_g t m)
+  | KGoModeShift d m obs => mode_eqb obs (mode_shift_g d m)
+  | KGoModeSum ms obs => option_eqb mode_eqb obs (mode_sum_g ms)
+  | _ => agrees0 c
+  end.
+(* judged inside the band where seconds + 62135596800 fits an int64 (all valid Timestamps and far beyond): there the
+   observations must have the meaning on denoted instants that the other kinds are judged by *)
+Definition C18_guard (c : c18case) : bool :=
+  match c with
+  | KGoCompare a b _ => ts_valid a && ts_valid b && in_band a && in_band b
+  | KGoNew a d _ => ts_valid a && in_band a && in64 d && shift_in_band a d
+  | KGoMode t m _ => in64 t && start_in_band m && (mode_wf m && mode_dur_guard t m)
+  | KGoModeShift d m _ => in64 d && start_in_band m && mode_shift_in_band d m && (mode_wf m && dur_guard d (msegs m))
+  | KGoModeSum _ _ => false
+  | _ => C18_guard0 c
+  end.
+Definition C18_ok (c : c18case) : bool :=
+  match c with
+  | KGoCompare a b obs =>
+      let '(c, s, bf, af) := obs in
+      (c =? compare_ref a b) && (s =? sat64 (ts_val a - ts_val b))
+      && Bool.eqb bf (ts_val a <? ts_val b) && Bool.eqb af (ts_val b <? ts_val a)
+  | KGoNew a d obs => ts_eqb obs (ts_of (ts_val a + d))
+  | KGoMode t m obs =>
+      let '(ac, mg, mx, ct) := obs in
+      C18_ok0 (KModeActiveAt t m ac) && C18_ok0 (KModeMagAt t m mg)
+      && C18_ok0 (KModeMaxAfter t m mx) && C18_ok0 (KModeCut t m ct)
+  | KGoModeShift d m obs => C18_ok0 (KModeShift d m obs)
+  | KGoModeSum _ _ => true
+  | _ => C18_ok0 c
   end.
 
 (* Inputs outside the guard are reported under class 1 ("outside the stated guard": invalid
